@@ -1,7 +1,7 @@
 """Orchestration shared by every property check: build the harness from /repo's current tree,
 run TLC models (conformance A: emit transitions, replay on real code) and trace validations
 (conformance B), collect evidence, report violations / known findings."""
-import hashlib, json, os, re, shutil, subprocess, sys, tempfile, time, concurrent.futures as cf
+import glob, hashlib, json, os, re, shutil, subprocess, sys, tempfile, time, concurrent.futures as cf
 
 V = "/verif"
 HARNESS = V + "/harness"
@@ -273,6 +273,7 @@ def finish(pid, tier, seed, jobs, t0, level="model_checking", predicates=None, r
     known = load_known()
     predicates = predicates or {}
     os.makedirs(V + "/replays", exist_ok=True); os.makedirs(V + "/evidence", exist_ok=True)
+    for old in glob.glob("%s/replays/%s-*.json" % (V, pid)): os.remove(old)          # replays of an earlier run of this check
     viol = 0; kf = {}
     n = 0
     for j in jobs:
